@@ -126,7 +126,8 @@ def instances(tier):
     k = 0
     for (n1, n2) in shapes:
         heavy = n1 + n2 >= 2
-        for fs in (FS if (tier != 'quick' or not heavy) else quick_fs):
+        vheavy = n1 + n2 >= 3
+        for fs in (([()] if (n1 and n2) else quick_fs) if vheavy else (FS if (tier != 'quick' or not heavy) else quick_fs)):
             nin = 1 + k % 2
             idx = [0, nin - 1, nin, nin + 1][k % 4]
             mutable = bool(k % 3 == 0)
